@@ -38,7 +38,7 @@ ASSUMPTIONS = [
 ]
 
 TB_NAME = re.compile(r"^traceback(-\d+)*$")
-TRACEBACK_KINDS = {"fail", "error", "failsub", "mismatch", "kbd", "exit", "kbdsub", "exitsub", "xfail",
+TRACEBACK_KINDS = {"fail", "error", "failsub", "mismatch", "kbd", "exit", "kbdsub", "exitsub", "basedirect", "xfail",
                    "eqexc", "sameobj"}
 
 
